@@ -419,8 +419,16 @@ impl Property for C01 {
     fn strategy(_tier: Tier) -> BoxedStrategy<Scenario> {
         let forms = all_forms();
         let unit = || (-60i8..=60, -60i8..=60);
-        (unit(), unit(), any::<bool>(), any::<bool>(), gen::finite_f32(), gen::finite_f32(), prop_oneof![3 => any::<i64>().prop_map(|x| x >> 20), 3 => any::<i64>(), 2 => gen::tie_i64()], proptest::sample::select(forms))
-            .prop_map(|(u1, u2, same1, same2, a, b, n, form)| Scenario { u1, u2: if same1 && same2 { u1 } else { u2 }, a, b, n, form })
+        // operand values: independent in general; in 1 case of 5 the operands are *equal as numbers* (an integer and the same
+        // number as f32, a whole number of seconds and the same number as f32, the same f32 twice), so that differences cancel
+        // to a signed zero and quotients are exactly one
+        let values = prop_oneof![
+            8 => (gen::finite_f32(), gen::finite_f32(), prop_oneof![3 => any::<i64>().prop_map(|x| x >> 20), 3 => any::<i64>(), 2 => gen::tie_i64()]),
+            1 => (-1000i64..=1000).prop_map(|n| (n as f32, n as f32, n)),
+            1 => (-8i64..=8).prop_map(|k| (k as f32, k as f32, k * 1_000_000_000)),
+        ];
+        (unit(), unit(), any::<bool>(), any::<bool>(), values, proptest::sample::select(forms))
+            .prop_map(|(u1, u2, same1, same2, (a, b, n), form)| Scenario { u1, u2: if same1 && same2 { u1 } else { u2 }, a, b, n, form })
             .boxed()
     }
     fn cases(tier: Tier) -> u32 {
@@ -438,6 +446,16 @@ impl Property for C01 {
                         sink(Scenario { u1, u2, a, b, n: nn, form });
                         n += 1;
                     }
+                }
+            }
+        }
+        // cancellation: operands equal as numbers, on the unit pairs where the mixed forms do not panic (dimensionless with
+        // DimensionlessInteger, seconds with Time) and on a few equal pairs for the Quantity-Quantity forms
+        for &u in &[(0i8, 0i8), (0, 1), (1, 0), (1, -2)] {
+            for &form in &forms {
+                for &(a, b, nn) in &[(3.0f32, 3.0f32, 3i64), (0.0, 0.0, 0), (-0.0, -0.0, 0), (2.0, 2.0, 2_000_000_000), (-7.0, -7.0, -7), (-1.0, -1.0, -1_000_000_000)] {
+                    sink(Scenario { u1: u, u2: u, a, b, n: nn, form });
+                    n += 1;
                 }
             }
         }
